@@ -6,6 +6,7 @@ pub mod cli;
 pub mod fuse;
 pub mod ledger;
 pub mod model;
+pub mod par;
 pub mod payload;
 pub mod prng;
 pub mod rig;
